@@ -6,6 +6,7 @@ package main
 // Parsed by a small Pratt parser.
 
 import (
+	"strconv"
 	"fmt"
 	"math/big"
 	"strings"
@@ -130,6 +131,14 @@ func lexExpr(s string) ([]etoken, error) {
 			continue
 		}
 		if c == '"' {
+			// a Go string literal when it is one (all escapes: \x1a, \000, \b, ...)
+			if k := goStringEnd(s, i); k > 0 {
+				if v, err := strconv.Unquote(s[i : k+1]); err == nil {
+					toks = append(toks, etoken{"str", v})
+					i = k + 1
+					continue
+				}
+			}
 			j := i + 1
 			var b strings.Builder
 			for j < len(s) && s[j] != '"' {
@@ -456,4 +465,17 @@ func exprString(e Expr) string {
 		return "(" + exprString(e.C) + " ? " + exprString(e.A) + " : " + exprString(e.B) + ")"
 	}
 	return "?"
+}
+
+// goStringEnd: index of the closing quote of the interpreted string literal that starts at s[i], or -1.
+func goStringEnd(s string, i int) int {
+	for j := i + 1; j < len(s); j++ {
+		switch s[j] {
+		case '\\':
+			j++
+		case '"':
+			return j
+		}
+	}
+	return -1
 }
